@@ -448,6 +448,13 @@ def eval_grown(case):
             for pr in more:
                 h.connect_interface(pr[0])
                 now.append(pr)
+        elif change == 'subs-come-and-go':
+            # sub-interfaces of the other ports are connected and then taken away where they were made (the parent port)
+            for j, pr in enumerate(more):
+                sub = pr[0].add_child_interface(name=f'sub{j}', labels=Labels(vlan=str(100 + j)))
+                h.connect_interface(sub)
+            for j, pr in enumerate(more):
+                pr[0].remove_child_interface(name=f'sub{j}')
         elif change == 'relocated':
             for n in nodes:
                 n.site = more_site
@@ -509,7 +516,7 @@ def eval_peered(case):
 def grown_cases(tier):
     out = []
     for st in PINNED:
-        for change in ('grow', 'grow-shrink', 'swap', 'relocated'):
+        for change in ('grow', 'grow-shrink', 'swap', 'relocated', 'subs-come-and-go'):
             for n_first in (0, 1, 2):
                 for n_more in ((0,) if change == 'relocated' else (1, 2)):
                     for site in ('S1', 'S2'):
